@@ -387,7 +387,7 @@ def int_to_str(I, v):
 
 
 def _review(v, kind):
-    r = SView(v.arr, v.off, v.ln, kind)
+    r = SView(v.arr, v.off, v.ln, kind, v.pre)
     r.byte_range = _b.getattr(v, 'byte_range', False) or v.kind in ('bytes', 'bytearray')
     return r
 
